@@ -30,4 +30,51 @@ PROPS = {
         outside="reads below the compaction floor (C08); engines' own snapshot isolation (C11); keys outside the name set",
         assumptions=["storage engine honours the documented KvStorage contract (model store zzmodel.Store; adapters checked in C11)"],
     ),
+    "C01": dict(
+        harnesses=[
+            dict(run=B + "VerifC01Race", quick=dict(ops=1, keys=1, val9=0, preempt=1), thorough=dict(ops=2, keys=1, val9=0, preempt=2),
+                 covers=["both-succeed", "one-loses", "done"]),
+            dict(run=B + "VerifC01Seq", quick=dict(ops=3, keys=1, val9=0), thorough=dict(ops=3, keys=2, val9=0), covers=["create-ok", "create-refused", "update-ok", "update-refused", "delete-ok", "delete-refused", "delete-absent", "done"]),
+        ],
+        bounds=dict(quick="2 concurrent clients on 1 key after a 1-write history (initial states: never existed, live, deleted), every interleaving of their store operations and revision dealing with at most 1 preemption; sequential histories of 3 writes; expected revisions unconstrained 64-bit; both conflict-reporting styles of the engine contract",
+                    thorough="2 clients after 2-write histories with at most 2 preemptions; sequential histories of 3 writes over 2 keys"),
+        outside="engines' own transaction isolation (assumed by the contract store; adapters in C11); unknown-outcome faults (C09); more than 2 concurrent clients; deleted-and-compacted initial state is covered by C07's after-compaction write",
+        assumptions=["an unguarded delete (expected revision 0) is executed as 'delete the version I read'; its failure is accepted when a concurrent write to the key succeeded while it was in flight"],
+    ),
+    "C05": dict(
+        harnesses=[
+            dict(run=B + "VerifC05Watch", quick=dict(ops=2, keys=1, val9=0, cache=2, later=1), thorough=dict(ops=2, keys=2, val9=0, cache=2, later=2),
+                 covers=["events-delivered", "several-events", "refused", "catch-up-from-cache", "done"]),
+        ],
+        bounds=dict(quick="sequential client: 2-write history, watch from a symbolic start revision (0, below/inside/at/above the cached window) on 4 prefixes, 1 further write; event cache of 2 entries (wraps)",
+                    thorough="2 keys, 2 further writes"),
+        outside="slow consumers and registration racing writes (threaded harnesses, see DESIGN.md); cache sizes other than 2",
+    ),
+    "C07": dict(
+        harnesses=[
+            dict(run=B + "VerifC07Compact", quick=dict(ops=2, keys=1, val9=0, delfaults=1), thorough=dict(ops=3, keys=1, val9=0, delfaults=2),
+                 covers=["delete-error", "delete-unknown-applied", "compactor-dies", "get-present", "get-absent", "done"]),
+        ],
+        bounds=dict(quick="histories of 2 writes on 1 key (multi-version, tombstones, re-created), compaction at every revision R in (base, current], one fault (error / unknown-applied / compactor dies) at any compaction delete, reads at every R' >= R and latest, one further write",
+                    thorough="histories of 3 writes, up to 2 faults"),
+        outside="time-based expiry (C17); concurrent writers during the scan; skipped-prefix configurations (recorded finding, see DESIGN.md)",
+    ),
+    "C08": dict(
+        harnesses=[
+            dict(run=B + "VerifC08Floor", quick=dict(ops=1, keys=1, val9=0, compactions=2), thorough=dict(ops=2, keys=1, val9=0, compactions=3, interleave=1),
+                 covers=["accepted", "older-request-accepted", "refused", "refused-limited", "refused-stream", "served", "done"]),
+        ],
+        bounds=dict(quick="1-write history, 2 compaction requests with unconstrained 64-bit revisions (increasing, repeated, decreasing, 0, above current), then an unlimited / limited / streamed range read at any revision",
+                    thorough="2-write history, 3 requests interleaved with writes"),
+        outside="Count (always served at the current revision)",
+    ),
+    "C13": dict(
+        harnesses=[
+            dict(run=B + "VerifC13Partitions", quick=dict(ops=2, keys=1, val9=0, borders=1), thorough=dict(ops=2, keys=2, val9=0, borders=2),
+                 covers=["partitioned", "border-on-index-record", "border-inside-versions", "done"]),
+        ],
+        bounds=dict(quick="2-write histories on 1 key, 2 partitions with the border at Encode(name, rev) for any 64-bit rev (index record, inside versions, beyond), pieces reported in any order; unlimited list, count, streamed range at every readable revision",
+                    thorough="2 keys, up to 3 partitions"),
+        outside="borders that are not well-formed internal keys; worker retry after a partial stream",
+    ),
 }
